@@ -73,12 +73,17 @@ class _Adversary:
         raise e
 
 
-def ob_termination(seed_i: int, k0: int, l0: int, c0: int, k1: int, l1: int, c1: int) -> Optional[str]:
-    if not (0 <= seed_i < len(SEEDS) and 0 <= k0 < 3 and 0 <= k1 < 3):
+def ob_termination(seed_i: int, k0: int, l0: int, c0: int, k1: int, l1: int, c1: int, quad: int) -> Optional[str]:
+    if not (0 <= seed_i < len(SEEDS) and 0 <= k0 < 3 and 0 <= k1 < 3 and -1 <= quad < 4):
         raise Skip()
     src = SEEDS[seed_i]
     nlines = len(src.splitlines())
     maxlen = max(len(x) for x in src.splitlines())
+    if quad >= 0:
+        # partition key only: which halves of the column range the two error columns lie in
+        mid = (maxlen + 1) // 2
+        if (c0 > mid) != (quad in (1, 3)) or (c1 > mid) != (quad in (2, 3)):
+            raise Skip()
     if not (1 <= l0 <= nlines + 1 and 0 <= c0 <= maxlen + 1 and 1 <= l1 <= nlines + 1 and 0 <= c1 <= maxlen + 1):
         raise Skip()
     if k0 != 2 and (l0, c0) != (1, 0):
@@ -365,12 +370,14 @@ def _term_parts(quick):
         for a in range(3):
             for b in range(3):
                 if (a, b) != (2, 2):
-                    out.append(dict(seed_i=s, k0=a, k1=b))
+                    out.append(dict(seed_i=s, k0=a, k1=b, quad=-1))
                 elif quick:
                     if s < 3:
-                        out += [dict(seed_i=s, k0=2, k1=2, l0=x, l1=y) for x in range(1, n + 2) for y in range(1, n + 2)]
+                        # long lines: the (column, column) square is split into quadrants so that each partition exhausts
+                        quads = (0, 1, 2, 3) if max(len(x) for x in SEEDS[s].splitlines()) > 10 else (-1,)
+                        out += [dict(seed_i=s, k0=2, k1=2, l0=x, l1=y, quad=q) for x in range(1, n + 2) for y in range(1, n + 2) for q in quads]
                 else:
-                    out += [dict(seed_i=s, k0=2, k1=2, l0=x, l1=y) for x in range(1, n + 2) for y in range(1, n + 2)]
+                    out += [dict(seed_i=s, k0=2, k1=2, l0=x, l1=y, quad=q) for x in range(1, n + 2) for y in range(1, n + 2) for q in (0, 1, 2, 3)]
     return out
 
 
